@@ -9,8 +9,10 @@ import vlib
 PID = "C13"
 RULE = ("seeded workloads: T in {2,4,8,16} threads on one engine, 30-80 operations per thread drawn from {call shared script functions, evaluate with "
         "locals of the same names on every thread, def new functions / globals / classes with thread-unique names, C++ add(fun) / add_global, add a "
-        "type conversion and use it, use() of one file by all, get_state}, seeded sleeps/yields between operations, then after a barrier calls to "
-        "everything registered by another thread; every workload repeated R times. Oracle: ThreadSanitizer silent; every result equals its "
+        "type conversion and use it, use() of one file by all, get_state}, seeded sleeps/yields between operations, then 12 rounds in which all threads register the same new name at the same "
+        "moment (exactly one may succeed), 8 rounds in which every thread adds an overload of its own parameter type to one shared name at the same "
+        "moment - on odd rounds while half of the threads call that name - after which all T overloads must be callable from every thread, then after "
+        "a barrier calls to everything registered by another thread; every workload repeated R times. Oracle: ThreadSanitizer silent; every result equals its "
         "arithmetically known value; nothing registered is lost; the used file ran once; a thread's top-level local is its own. non-trivial = a "
         "repetition in which >=2 threads were inside the engine at the same time (measured); distinct = distinct (workload, repetition) pairs")
 ENV = {"TSAN_OPTIONS": "halt_on_error=1:exitcode=66:second_deadlock_stack=1"}
